@@ -5,8 +5,9 @@ from vlib.runner import Failure
 from checks.c04 import setup
 
 PID = "C14"
-LEAN_MODULE = "NunVerif.Props.C14"
-THEOREMS = ["Nun.C14_secondary_never_fans_out", "Nun.C14_fanout_bounded", "Nun.C14_ack_is_silent", "Nun.replStep_sends"]
+LEAN_MODULE = "NunVerif.Props.C14Burst"
+THEOREMS = ["Nun.C14_secondary_never_fans_out", "Nun.C14_fanout_bounded", "Nun.C14_ack_is_silent", "Nun.replStep_sends",
+            "Nun.C14_write_burst", "Nun.loop_copies_are_the_envelope", "Nun.secondary_envelope_is_quiet", "Nun.replStep_of_envelope", "Nun.primary_set_emits"]
 
 # every client-visible command (arguments chosen so that most are accepted)
 COMMANDS = ["set a 1", "set a two words", "set-safe a 0 x", "set-safe a 9 y", "get a", "get-safe a", "remove a", "remove zz", "increment n", "increment n 3", "increment a",
